@@ -28,7 +28,9 @@ type Options struct {
 	LongPartitions bool
 	// RealStore: every replica keeps its raft state in a real sharded Pebble log store (in-memory
 	// file system), reopened at every restart of the replica
-	RealStore    bool
+	RealStore bool
+	// RealStoreTan: the real log store is Tan instead of sharded Pebble
+	RealStoreTan bool
 	Witnesses    int
 	PreVote      bool
 	CheckQuorum  bool
@@ -150,6 +152,7 @@ func (s *Sim) newStore(id uint64) *memStore {
 	st := newMemStore(shardID, id)
 	if s.opt.RealStore {
 		st.realFS = vfs.NewMemFS()
+		st.realTan = s.opt.RealStoreTan
 		st.openReal()
 	}
 	return st
